@@ -1,0 +1,110 @@
+//go:build verif
+
+package storethehash
+
+// Machine-checked contracts for this package (comment-only; read by the gsv
+// verification-condition generator under /verif). Guarded by the build tag
+// `verif`, so no ordinary build ever sees this file.
+//
+// The blockstore adapter is verified against the (separately proved) contract
+// of store.Store: each method is the map operation on key cidhash(c), i.e. the
+// multihash of the CID, so CIDs that share a multihash address the same block.
+
+//@ define ST() = bs.store
+//@ define Ein(s) = s.index.$Ein
+//@ define Eblk(s) = s.index.$Eblk
+//@ define Rin(s) = s.index.Primary.$Rin
+//@ define Rkey(s) = s.index.Primary.$Rkey
+//@ define Rval(s) = s.index.Primary.$Rval
+//@ define Rused(s) = s.index.Primary.$Rused
+//@ define FL(s) = s.freelist.$F
+//@ define has(s, k) = Ein(s)[k] && Rin(s)[Eblk(s)[k]]
+//@ define val(s, k) = Rval(s)[Eblk(s)[k]]
+//@ define SI1(s) = forall k Bytes :: Ein(s)[k] && Rin(s)[Eblk(s)[k]] ==> ikey(Rkey(s)[Eblk(s)[k]]) == k
+//@ define SI2(s) = forall k1 Bytes, k2 Bytes :: Ein(s)[k1] && Ein(s)[k2] && k1 != k2 ==> Eblk(s)[k1] != Eblk(s)[k2]
+//@ define SI3(s) = forall k Bytes :: Ein(s)[k] ==> FL(s)[Eblk(s)[k]] == 0
+//@ define SI4(s) = forall b int :: Rin(s)[b] ==> wfkey(Rkey(s)[b])
+//@ define SI5(s) = forall k Bytes :: Ein(s)[k] ==> Rused(s)[Eblk(s)[k]]
+//@ define SI6(s) = forall b int :: FL(s)[b] != 0 || Rin(s)[b] ==> Rused(s)[b]
+//@ define SI7(s) = forall b int :: Rin(s)[b] ==> pair.snd(b) == len(Rkey(s)[b]) + len(Rval(s)[b])
+//@ define SI(s) = SI1(s) && SI2(s) && SI3(s) && SI4(s) && SI5(s) && SI6(s) && SI7(s)
+//@ define sameview(s) = forall k Bytes :: has(s, k) == old(has(s, k)) && (has(s, k) ==> val(s, k) == old(val(s, k)))
+//@ define untouched(s) = Ein(s) == old(Ein(s)) && Eblk(s) == old(Eblk(s)) && Rin(s) == old(Rin(s)) && Rkey(s) == old(Rkey(s)) && Rval(s) == old(Rval(s)) && FL(s) == old(FL(s))
+//@ define K(c) = ikey(cidhash(c.str))
+
+//@ func (bs *HashedBlockstore) HashOnRead(enabled bool)  property C15
+//@   modifies bs.hashOnRead
+//@   ensures @set bs.hashOnRead == enabled
+
+//@ func (bs *HashedBlockstore) DeleteBlock(ctx context.Context, c cid.Cid) (err error)  property C15
+//@   requires SI(bs.store)
+//@   modifies bs.store.index.$Ein, bs.store.freelist.$F, bs.store.flushNotice, chan(bs.store.flushNotice), ctx.$done
+//@   ensures @cancelled old(ctx.$done) ==> err != nil && untouched(bs.store)
+//@   ensures @deleted err == nil ==> !has(bs.store, K(c))
+//@   ensures @others forall k Bytes :: k != K(c) ==> has(bs.store, k) == old(has(bs.store, k)) && (has(bs.store, k) ==> val(bs.store, k) == old(val(bs.store, k)))
+//@   ensures @inv SI(bs.store)
+
+//@ func (bs *HashedBlockstore) Has(ctx context.Context, c cid.Cid) (found bool, err error)  property C15
+//@   requires SI(bs.store)
+//@   modifies ctx.$done
+//@   ensures @cancelled old(ctx.$done) ==> err != nil
+//@   ensures @result err == nil ==> found == has(bs.store, K(c))
+
+//@ func (bs *HashedBlockstore) Get(ctx context.Context, c cid.Cid) (blk blocks.Block, err error)  property C15
+//@   requires SI(bs.store)
+//@   modifies bs.store.index.$Ein, ctx.$done
+//@   ensures @cancelled old(ctx.$done) ==> err != nil && untouched(bs.store)
+//@   ensures @found err == nil ==> old(has(bs.store, K(c))) && blockdata(blk.$pay) == old(val(bs.store, K(c))) && blockcid(blk.$pay) == c.str
+//@   ghost var gfound bool = true
+//@   ghost var gerr bool = true
+//@   ghost at after call store.Store.Get#0: gfound = $r1
+//@   ghost at after call store.Store.Get#0: gerr = ($r2 != nil)
+//@   ensures @notfound-kind !gerr && !gfound ==> typeis(err, ipld.ErrNotFound)
+//@   ensures @absent-fails !old(has(bs.store, K(c))) ==> err != nil
+//@   ensures @hash-checked bs.hashOnRead && err == nil ==> cidsum(cidprefix(c.str), old(val(bs.store, K(c)))) == c.str
+//@   ensures @hash-unchecked !bs.hashOnRead ==> event("call:(github.com/ipfs/go-cid.Prefix).Sum") == 0
+//@   ensures @view sameview(bs.store)
+//@   ensures @inv SI(bs.store)
+
+//@ func (bs *HashedBlockstore) GetSize(ctx context.Context, c cid.Cid) (size int, err error)  property C15
+//@   requires SI(bs.store)
+//@   modifies ctx.$done
+//@   ensures @cancelled old(ctx.$done) ==> err != nil
+//@   ensures @found err == nil ==> has(bs.store, K(c))
+//@   ghost var gfound bool = true
+//@   ghost var gerr bool = true
+//@   ghost at after call store.Store.GetSize#0: gfound = $r1
+//@   ghost at after call store.Store.GetSize#0: gerr = ($r2 != nil)
+//@   ensures @notfound-kind !gerr && !gfound ==> typeis(err, ipld.ErrNotFound)
+//@   ensures @absent-fails !has(bs.store, K(c)) ==> err != nil
+//@   ensures @size err == nil && len(Rkey(bs.store)[Eblk(bs.store)[K(c)]]) == len(cidhash(c.str)) ==> size == len(val(bs.store, K(c)))
+
+//@ func (bs *HashedBlockstore) Put(ctx context.Context, blk blocks.Block) (err error)  property C15
+//@   define BK() = ikey(cidhash(blockcid(blk.$pay)))
+//@   requires SI(bs.store)
+//@   requires wfkey(cidhash(blockcid(blk.$pay)))
+//@   requires len(cidhash(blockcid(blk.$pay))) + len(blockdata(blk.$pay)) < (1 << 31)
+//@   requires bs.store.err != types.ErrKeyExists
+//@   modifies bs.store.index.$Ein, bs.store.index.$Eblk, bs.store.index.Primary.$Rin, bs.store.index.Primary.$Rkey, bs.store.index.Primary.$Rval, bs.store.index.Primary.$Rused, bs.store.freelist.$F, bs.store.flushNotice, chan(bs.store.flushNotice), ctx.$done
+//@   ensures @cancelled old(ctx.$done) ==> err != nil && untouched(bs.store)
+//@   ensures @stored err == nil ==> has(bs.store, BK())
+//@   ensures @new-value err == nil && !old(has(bs.store, BK())) ==> val(bs.store, BK()) == blockdata(blk.$pay)
+//@   ensures @others forall k Bytes :: k != BK() ==> has(bs.store, k) == old(has(bs.store, k)) && (has(bs.store, k) ==> val(bs.store, k) == old(val(bs.store, k)))
+//@   ensures @inv SI(bs.store)
+
+//@ func (bs *HashedBlockstore) PutMany(ctx context.Context, blks []blocks.Block) (err error)  property C15
+//@   define BKJ(j) = ikey(cidhash(blockcid(blks[j].$pay)))
+//@   requires SI(bs.store)
+//@   requires forall j int :: 0 <= j && j < len(blks) ==> wfkey(cidhash(blockcid(blks[j].$pay))) && len(cidhash(blockcid(blks[j].$pay))) + len(blockdata(blks[j].$pay)) < (1 << 31)
+//@   requires bs.store.err != types.ErrKeyExists
+//@   modifies bs.store.index.$Ein, bs.store.index.$Eblk, bs.store.index.Primary.$Rin, bs.store.index.Primary.$Rkey, bs.store.index.Primary.$Rval, bs.store.index.Primary.$Rused, bs.store.freelist.$F, bs.store.flushNotice, chan(bs.store.flushNotice), ctx.$done
+//@   ensures @cancelled old(ctx.$done) ==> err != nil && untouched(bs.store)
+//@   ensures @all-stored err == nil ==> forall j int :: 0 <= j && j < len(blks) ==> has(bs.store, BKJ(j))
+//@   ensures @others forall k Bytes :: (forall j int :: 0 <= j && j < len(blks) ==> k != BKJ(j)) ==> has(bs.store, k) == old(has(bs.store, k)) && (has(bs.store, k) ==> val(bs.store, k) == old(val(bs.store, k)))
+//@   ensures @inv SI(bs.store)
+//@   loop 0 invariant SI(bs.store)
+//@   loop 0 invariant 0 <= $idx && $idx <= len(blks)
+//@   loop 0 invariant forall j int :: 0 <= j && j < $idx ==> has(bs.store, BKJ(j))
+//@   loop 0 invariant forall k Bytes :: (forall j int :: 0 <= j && j < $idx ==> k != BKJ(j)) ==> has(bs.store, k) == old(has(bs.store, k)) && (has(bs.store, k) ==> val(bs.store, k) == old(val(bs.store, k)))
+//@   loop 0 invariant forall r int :: 0 <= r && r <= old($alloc) && r != old(bs.store.flushNotice) ==> closed(r) == old(closed(r)) && waited(r) == old(waited(r))
+//@   loop 0 invariant bs.store.flushNotice == old(bs.store.flushNotice) || bs.store.flushNotice == nil || bs.store.flushNotice > old($alloc)
